@@ -50,17 +50,25 @@ def hexUpper (n : Nat) : Bytes := if n < 16 then [hexUpperDigit n] else [hexUppe
 /-- Rust `char::is_control` (general category Cc) -/
 def isControl (c : Nat) : Bool := c < 32 || (127 ≤ c && c < 160)
 
-/-- `xml_escape` on one scalar value -/
+/-- `xml_escape` on one scalar value (U+0000 and the noncharacters U+FFFE / U+FFFF are not XML characters: U+FFFD) -/
 def escapeScalar (isAttr : Bool) (c : Nat) : Bytes :=
   if c == 38 then asciiBytes "&amp;"
   else if c == 60 then asciiBytes "&lt;"
   else if c == 62 then asciiBytes "&gt;"
   else if c == 34 then asciiBytes "&quot;"
   else if c == 39 then asciiBytes "&apos;"
-  else if c == 0 then utf8EncodeChar 0xFFFD
+  else if c == 0 || c == 0xFFFE || c == 0xFFFF then utf8EncodeChar 0xFFFD
   else if (c == 9 || c == 10) && !isAttr then utf8EncodeChar c
   else if isControl c then asciiBytes "&#x" ++ hexUpper c ++ asciiBytes ";"
   else utf8EncodeChar c
+
+/-- XML 1.1 `Char` minus `RestrictedChar`: the characters that may stand literally in a document -/
+def xmlLiteralOk (c : Nat) : Bool :=
+  c == 9 || c == 10 || c == 13 || (0x20 ≤ c && c ≤ 0x7E) || c == 0x85 || (0xA0 ≤ c && c ≤ 0xD7FF) || (0xE000 ≤ c && c ≤ 0xFFFD)
+    || (0x10000 ≤ c && c ≤ 0x10FFFF)
+
+/-- XML 1.1 `Char`: the characters a character reference may name -/
+def xmlCharOk (c : Nat) : Bool := (1 ≤ c && c ≤ 0xD7FF) || (0xE000 ≤ c && c ≤ 0xFFFD) || (0x10000 ≤ c && c ≤ 0x10FFFF)
 
 /-- `xml_escape(text, attribute)` -/
 def xmlEscape (isAttr : Bool) (text : Bytes) : Bytes := (utf8Decode text).flatMap (escapeScalar isAttr)
